@@ -966,6 +966,11 @@ impl<C: CellType> OptRebuild<'_, C> {
         let mut dependents = HashMap::new();
         let mut depends_on = HashMap::new();
         for var in vars {
+            if constant.contains(&var) || depends_on.contains_key(&var) {
+                // Already handled. Registering a variable twice would count its
+                // dependencies twice and wrongly mark it constant later on.
+                continue;
+            }
             if let Some(write) = sub_state.written.get(&var) {
                 if let OptWrite::Known(written) = write {
                     if self.compare(Expr::var(var), written) {
